@@ -12,9 +12,10 @@
 (* Time is discrete (ticks).  Expiry is urgent: the clock does not advance *)
 (* past the moment a superseded token is due while it is still stored.     *)
 (*                                                                         *)
-(* Deviation Dev_ExpiryWrongKey (the pinned code): the timer's clean-up    *)
-(* looks the tokens up under the wrong map key (token id instead of        *)
-(* channel id) and removes nothing.                                        *)
+(* Deviation Dev_ExpiryWrongKey (the pinned code, repaired by 954271b):    *)
+(* the timer's clean-up looks the tokens up under the wrong map key (token *)
+(* id instead of channel id) and removes nothing.  Kept as deviation demo; *)
+(* FALSE in the as-is configuration.                                       *)
 (***************************************************************************)
 EXTENDS Integers, Sequences, FiniteSets, TLC, Json
 
